@@ -740,7 +740,9 @@ def _r345(repo, L, ia, find: Func):
     if first_v is None or last_v is None:
         raise AnalysisError("first/last index variables not identified")
     last_loop = max(body.index(l) for l in loops)
-    tail = body[last_loop + 1: body.index(ret) + 1] if ret in body else None
+    # the top-level statement that holds the construction (the return itself, or an if/else whose branches each return one)
+    top_ = next((b_ for b_ in body if any(x is ret for x in ast.walk(b_))), None)
+    tail = body[last_loop + 1: body.index(top_) + 1] if top_ is not None and body.index(top_) > last_loop else None
     if tail is None:
         raise AnalysisError("result construction is not at the top level of find_overlaps")
     i, j = Lin.atom("FIRST"), Lin.atom("LAST")
